@@ -58,7 +58,28 @@ def spectrum(rng, kind, n):
     raise ValueError(kind)
 
 
+REAL_TRIDIAG = K.eigh_tridiagonal
+FAULT = {"hits": 0}
+
+
+def failing_tridiag(*a, **k):
+    """injected fault: LAPACK non-convergence of eigh_tridiagonal -> the dense np.linalg.eigh fallback of _expm_krylov"""
+    FAULT["hits"] += 1
+    raise np.linalg.LinAlgError("injected: eigh_tridiagonal did not converge")
+
+
 def run(case, seed):
+    K.eigh_tridiagonal = failing_tridiag if case.get("fault") else REAL_TRIDIAG
+    h0 = FAULT["hits"]
+    try:
+        out = run_inner(case, seed)
+    finally:
+        K.eigh_tridiagonal = REAL_TRIDIAG
+    out["fault_hits"] = FAULT["hits"] - h0
+    return out
+
+
+def run_inner(case, seed):
     rng = np.random.default_rng([seed, case["id"]])
     n, bs = case["n"], case["bs"]
     w = spectrum(rng, case["spec"], n)
